@@ -1,8 +1,7 @@
 import Driver.Util
 import ReplicatModel.Settings
 open Lean Replicat Replicat.Gen Replicat.Settings
-namespace Driver
-
+namespace Driver.HSettings
 /-! requests `settings.*` (DESIGN.md Appendix A).
 
 Typed values cross the tie as tagged arrays:
@@ -167,4 +166,6 @@ def handleSettings (op : String) (j : Json) : Except String Json := do
           ("recognised", Json.bool settingsRecognised)])
   | _ => throw s!"unknown op {op}"
 
-end Driver
+end Driver.HSettings
+
+def Driver.handleSettings := Driver.HSettings.handleSettings
